@@ -24,7 +24,7 @@ class GaveUp(Exception):
     pass
 
 
-def one(ctx, S, coef, parity, crit, maxiter):
+def one(ctx, S, coef, parity, crit, maxiter, force_form=None):
     d = ctx.driver()
     errs = []
     orig = S.SymmetricQSPProtocol.gen_jacobian
@@ -46,6 +46,7 @@ def one(ctx, S, coef, parity, crit, maxiter):
     try:
         with core.quiet():
             form = ["float64-array", "float64-array", "float32-array", "float16-array", "float64-array"][zlib.crc32(repr((coef, parity)).encode()) % 5]
+            form = force_form or form
             ctx.count("coefficient-container:" + form)
             if form == "float64-array":
                 arr = np.array(coef, dtype=float)
@@ -123,6 +124,12 @@ def run(tier, seed):
     for k_, par_, vals in [(1, 0, [0.3]), (1, 1, [0.3]), (1, 0, [-0.85]), (1, 1, [0.9]), (2, 0, [0.2, -0.4]), (2, 1, [0.2, -0.4]),
                            (3, 0, [0.2, 0.1, 0.3]), (3, 1, [0.2, 0.1, 0.3])]:      # smallest sizes, both parities, library defaults
         one(ctx, S, vals, par_, None, None)
+    # inputs on which the unchanged tree once failed (known_findings.json, "fixed"): replayed in every run
+    import glob, json, os
+    for path in sorted(glob.glob(os.path.join(core.VERIF, "corpus", PROP, "*.json"))):
+        c = json.load(open(path))
+        ctx.count("corpus")
+        one(ctx, S, c["coef"], c["parity"], None, None, force_form=c.get("container"))
     for k in range(1, 81):                 # every length of the property's range at least once
         for rep in range((5 if q else 6) if k in ks else 1):
             parity = int(rng.choice([0, 1]))
